@@ -1,4 +1,559 @@
+/-
+C14 — path configuration resolution is deterministic and precedence-correct.  Property theorems.
+
+Reading of the property (relation `Resolves`):
+  * a configuration with exactly the requested name exists  → that configuration, no groups;
+  * otherwise, name invalid                                  → rejected (invalid);
+  * otherwise, some regex configuration matches              → the matching one that is before every
+    other matching one in name order with all/all_others last, with that match's capture groups;
+  * otherwise                                                → rejected (not configured).
+`find_spec` : for EVERY conforming sort, `find` returns a resolution.  `resolves_unique` : there is
+only one.  `find_perm_invariant` : hence the answer does not depend on map iteration order nor on which
+conforming (possibly unstable) sort is used.
+
+Hypothesis `WF` (distinct keys; at most one of all / all_others) is what a Go map and `Conf.Validate`
+guarantee (`validate_ok_wf`).  Without the second half the comparator does not order `all` against
+`all_others` (`less_incomparable_all_allOthers`) — unreachable through `Validate`.
+
+Not demanded (the property names only all/all_others): the third alias `~^.*$` is ordered as an
+ordinary name (`tildeAll_not_last`), so it shadows every regex configuration whose name is greater.
+-/
 import MtxVerif.Model.C14
+
 namespace MtxVerif.C14
-theorem stub : True := trivial
+
+/-! #### byte-wise string order is a strict total order -/
+
+theorem ltB_irrefl (a : Bytes) : ltB a a = false := by
+  induction a with
+  | nil => rfl
+  | cons x xs ih => simp [ltB, ih, UInt8.lt_irrefl]
+
+theorem ltB_trans : ∀ {a b c : Bytes}, ltB a b = true → ltB b c = true → ltB a c = true
+  | [], [], _, h, _ => by simp [ltB] at h
+  | [], _ :: _, [], _, h => by simp [ltB] at h
+  | [], _ :: _, _ :: _, _, _ => by simp [ltB]
+  | _ :: _, [], _, h, _ => by simp [ltB] at h
+  | _ :: _, _ :: _, [], _, h => by simp [ltB] at h
+  | x :: xs, y :: ys, z :: zs, h1, h2 => by
+    simp only [ltB, Bool.or_eq_true, decide_eq_true_eq, Bool.and_eq_true, beq_iff_eq] at *
+    rcases h1 with h1 | ⟨rfl, h1⟩
+    · rcases h2 with h2 | ⟨rfl, _⟩
+      · exact Or.inl (UInt8.lt_trans h1 h2)
+      · exact Or.inl h1
+    · rcases h2 with h2 | ⟨rfl, h2⟩
+      · exact Or.inl h2
+      · exact Or.inr ⟨rfl, ltB_trans h1 h2⟩
+
+theorem ltB_total : ∀ {a b : Bytes}, a ≠ b → ltB a b = true ∨ ltB b a = true
+  | [], [], h => absurd rfl h
+  | [], _ :: _, _ => by simp [ltB]
+  | _ :: _, [], _ => by simp [ltB]
+  | x :: xs, y :: ys, h => by
+    simp only [ltB, Bool.or_eq_true, decide_eq_true_eq, Bool.and_eq_true, beq_iff_eq]
+    by_cases hxy : x = y
+    · subst hxy
+      have : xs ≠ ys := fun e => h (by rw [e])
+      rcases ltB_total this with h | h
+      · exact Or.inl (Or.inr ⟨rfl, h⟩)
+      · exact Or.inr (Or.inr ⟨rfl, h⟩)
+    · rcases UInt8.lt_or_lt_of_ne hxy with h | h
+      · exact Or.inl (Or.inl h)
+      · exact Or.inr (Or.inl h)
+
+theorem ltB_asymm {a b : Bytes} (h : ltB a b = true) : ltB b a = false := by
+  cases hb : ltB b a with
+  | false => rfl
+  | true => have := ltB_trans h hb; rw [ltB_irrefl] at this; cases this
+
+/-! #### the comparator -/
+
+/-- well-formed configuration set: keys distinct (it is a map); at most one of all/all_others
+(`Conf.Validate` rejects aliases) -/
+structure WF (confs : List Entry) : Prop where
+  nodup : (confs.map (·.name)).Nodup
+  oneAll : ∀ a ∈ confs, ∀ b ∈ confs, isAllName a.name = true → isAllName b.name = true → a = b
+
+/-- the code's comparator is the property's order -/
+theorem less_eq_before (a b : Entry) : less a b = before a b := by
+  unfold less before
+  cases isAllName a.name <;> cases isAllName b.name <;> simp
+
+theorem map_nodup_inj {α : Type} (f : α → Bytes) {l : List α} (h : (l.map f).Nodup) :
+    ∀ a ∈ l, ∀ b ∈ l, f a = f b → a = b := by
+  induction l with
+  | nil => intro a ha; cases ha
+  | cons x xs ih =>
+    simp only [List.map_cons, List.nodup_cons, List.mem_map, not_exists, not_and] at h
+    intro a ha b hb hab
+    rcases List.mem_cons.mp ha with h1 | h1 <;> rcases List.mem_cons.mp hb with h2 | h2
+    · rw [h1, h2]
+    · subst h1; exact absurd hab.symm (h.1 b h2)
+    · subst h2; exact absurd hab (h.1 a h1)
+    · exact ih h.2 a h1 b h2 hab
+
+theorem name_inj {confs : List Entry} (h : (confs.map (·.name)).Nodup) :
+    ∀ a ∈ confs, ∀ b ∈ confs, a.name = b.name → a = b := map_nodup_inj Entry.name h
+
+theorem less_irrefl (a : Entry) : less a a = false := by
+  unfold less; cases isAllName a.name <;> simp [ltB_irrefl]
+
+theorem less_trans {a b c : Entry} (h1 : less a b = true) (h2 : less b c = true) : less a c = true := by
+  unfold less at *
+  cases ha : isAllName a.name <;> cases hb : isAllName b.name <;> cases hc : isAllName c.name <;>
+    simp_all
+  exact ltB_trans h1 h2
+
+theorem less_asymm {a b : Entry} (h : less a b = true) : less b a = false := by
+  cases hb : less b a with
+  | false => rfl
+  | true => have := less_trans h hb; rw [less_irrefl] at this; cases this
+
+/-- negative transitivity (the comparator is a strict weak order on ALL entries, well-formed or not) -/
+theorem less_neg_trans {x y e : Entry} (hxe : less x e = false) (hyx : less y x = false) :
+    less y e = false := by
+  unfold less at *
+  cases hY : isAllName y.name <;> cases hX : isAllName x.name <;> cases hE : isAllName e.name <;>
+    simp only [hY, hX, hE, if_true, if_false, Bool.false_eq_true, Bool.true_eq_false] at hxe hyx ⊢ <;>
+    first | rfl | skip
+  cases hye : ltB y.name e.name with
+  | false => rfl
+  | true =>
+    by_cases hxy : x.name = y.name
+    · rw [hxy] at hxe; rw [hxe] at hye; cases hye
+    · rcases ltB_total hxy with h' | h'
+      · have := ltB_trans h' hye; rw [hxe] at this; cases this
+      · rw [hyx] at h'; cases h'
+
+/-- **cmp_strict_total_on_distinct_names**: on a well-formed set two different entries are ordered one
+way or the other (with irreflexivity and transitivity above: a strict total order). -/
+theorem less_total {confs : List Entry} (wf : WF confs) {a b : Entry} (ha : a ∈ confs) (hb : b ∈ confs)
+    (hne : a ≠ b) : less a b = true ∨ less b a = true := by
+  have hn : a.name ≠ b.name := fun e => hne (name_inj wf.nodup a ha b hb e)
+  unfold less
+  cases hA : isAllName a.name <;> cases hB : isAllName b.name <;> simp
+  · exact ltB_total hn
+  · exact hne (wf.oneAll a ha b hb hA hB)
+
+/-- with both `all` and `all_others` present (which `Validate` rejects) the comparator leaves them
+unordered: the sort may put either first, and both match every valid name. -/
+theorem less_incomparable_all_allOthers (r1 r2 : Bool) (m1 m2 : Option (List Bytes)) :
+    less ⟨nAll, r1, m1⟩ ⟨nAllOthers, r2, m2⟩ = false ∧ less ⟨nAllOthers, r2, m2⟩ ⟨nAll, r1, m1⟩ = false := by
+  constructor <;> rfl
+
+/-- recorded, not demanded: the alias `~^.*$` is not kept last — it precedes e.g. `~^cam` -/
+theorem tildeAll_not_last :
+    less ⟨nTildeAll, true, none⟩ ⟨asc ['~', '^', 'c', 'a', 'm'], true, none⟩ = true := by decide
+
+/-! #### conforming sorts -/
+
+/-- what `sort.Slice(s, less)` guarantees: a permutation in which no later element is less than an
+earlier one -/
+structure IsSort (sort : List Entry → List Entry) : Prop where
+  perm : ∀ l, (sort l).Perm l
+  sorted : ∀ l, (sort l).Pairwise (fun a b => less b a = false)
+
+theorem insert_perm (e : Entry) (l : List Entry) : (insert e l).Perm (e :: l) := by
+  induction l with
+  | nil => exact List.Perm.refl _
+  | cons x xs ih =>
+    unfold insert
+    split
+    · exact ((List.Perm.cons x ih).trans (List.Perm.swap e x xs))
+    · exact List.Perm.refl _
+
+theorem insert_sorted (e : Entry) {l : List Entry} (h : l.Pairwise (fun a b => less b a = false)) :
+    (insert e l).Pairwise (fun a b => less b a = false) := by
+  induction l with
+  | nil => simp [insert]
+  | cons x xs ih =>
+    rw [List.pairwise_cons] at h
+    unfold insert
+    split
+    · rename_i hxe
+      rw [List.pairwise_cons]
+      refine ⟨?_, ih h.2⟩
+      intro y hy
+      rcases List.mem_cons.mp ((insert_perm e xs).subset hy) with rfl | hy
+      · exact less_asymm hxe
+      · exact h.1 y hy
+    · rename_i hxe
+      have hxe : less x e = false := by simpa using hxe
+      rw [List.pairwise_cons]
+      refine ⟨?_, List.pairwise_cons.mpr h⟩
+      intro y hy
+      rcases List.mem_cons.mp hy with rfl | hy
+      · exact hxe
+      · exact less_neg_trans hxe (h.1 y hy)
+
+/-- non-vacuity of `IsSort`: insertion sort conforms (it is the one the driver runs) -/
+theorem isort_isSort : IsSort isort := by
+  constructor
+  · intro l
+    induction l with
+    | nil => exact List.Perm.refl _
+    | cons e es ih => exact (insert_perm e _).trans (List.Perm.cons e ih)
+  · intro l
+    induction l with
+    | nil => exact List.Pairwise.nil
+    | cons e es ih => exact insert_sorted e ih
+
+/-! #### the property relation -/
+
+/-- `r` is a resolution of `name` in `confs`, in the property's words -/
+inductive Resolves (confs : List Entry) (name : Bytes) : Res → Prop
+  | exact (e : Entry) : e ∈ confs → e.name = name → Resolves confs name (.found name none)
+  | invalid : (∀ e ∈ confs, e.name ≠ name) → validName name = false → Resolves confs name .errInvalid
+  | regex (e : Entry) (g : List Bytes) : (∀ e ∈ confs, e.name ≠ name) → validName name = true →
+      e ∈ confs → e.regex = true → e.m = some g →
+      (∀ e' ∈ confs, e'.regex = true → e'.m ≠ none → e' = e ∨ before e e' = true) →
+      Resolves confs name (.found e.name (some g))
+  | notConfigured : (∀ e ∈ confs, e.name ≠ name) → validName name = true →
+      (∀ e ∈ confs, e.regex = true → e.m = none) → Resolves confs name .errNotConfigured
+
+theorem firstMatch_spec {l : List Entry} (hs : l.Pairwise (fun a b => less b a = false)) :
+    (firstMatch l = .errNotConfigured ∧ ∀ e ∈ l, e.m = none) ∨
+    (∃ e g, e ∈ l ∧ e.m = some g ∧ firstMatch l = .found e.name (some g) ∧
+      ∀ e' ∈ l, e'.m ≠ none → e' = e ∨ less e' e = false) := by
+  induction l with
+  | nil => left; simp [firstMatch]
+  | cons x xs ih =>
+    rw [List.pairwise_cons] at hs
+    unfold firstMatch
+    cases hm : x.m with
+    | some g =>
+      right
+      refine ⟨x, g, List.mem_cons_self, hm, rfl, ?_⟩
+      intro e' he' _
+      rcases List.mem_cons.mp he' with rfl | he'
+      · exact Or.inl rfl
+      · exact Or.inr (hs.1 e' he')
+    | none =>
+      rcases ih hs.2 with ⟨h1, h2⟩ | ⟨e, g, he, hg, hf, hall⟩
+      · left
+        refine ⟨h1, ?_⟩
+        intro e he
+        rcases List.mem_cons.mp he with rfl | he
+        · exact hm
+        · exact h2 e he
+      · right
+        refine ⟨e, g, List.mem_cons_of_mem _ he, hg, hf, ?_⟩
+        intro e' he' hne
+        rcases List.mem_cons.mp he' with rfl | he'
+        · exact absurd hm hne
+        · exact hall e' he' hne
+
+theorem find?_name_none {confs : List Entry} {name : Bytes}
+    (h : confs.find? (fun e => e.name == name) = none) : ∀ e ∈ confs, e.name ≠ name := by
+  intro e he hn
+  have := List.find?_eq_none.mp h e he
+  simp [hn] at this
+
+/-- **find_spec** — the property at full strength: for every conforming sort, every well-formed
+configuration set, every requested name and every regexp oracle, `FindPathConf`'s answer is a
+resolution in the property's sense. -/
+theorem find_spec {sort : List Entry → List Entry} (hsort : IsSort sort) {confs : List Entry}
+    (wf : WF confs) (name : Bytes) : Resolves confs name (find sort confs name) := by
+  unfold find
+  cases hf : confs.find? (fun e => e.name == name) with
+  | some e =>
+    have hmem := List.mem_of_find?_eq_some hf
+    have hn : e.name = name := by simpa using List.find?_some hf
+    simp only
+    rw [hn]
+    exact .exact e hmem hn
+  | none =>
+    have hno := find?_name_none hf
+    simp only
+    cases hv : validName name with
+    | false => simpa using Resolves.invalid hno hv
+    | true =>
+      simp only [Bool.not_true, Bool.false_eq_true, if_false]
+      have hperm := hsort.perm (confs.filter (fun e => e.regex))
+      have hmemIff : ∀ e, e ∈ sort (confs.filter (fun e => e.regex)) ↔ (e ∈ confs ∧ e.regex = true) := by
+        intro e; rw [hperm.mem_iff, List.mem_filter]
+      rcases firstMatch_spec (hsort.sorted (confs.filter (fun e => e.regex))) with
+        ⟨h1, h2⟩ | ⟨e, g, he, hg, hfm, hall⟩
+      · rw [h1]
+        exact .notConfigured hno hv (fun e he hr => h2 e ((hmemIff e).mpr ⟨he, hr⟩))
+      · rw [hfm]
+        have hec := (hmemIff e).mp he
+        refine .regex e g hno hv hec.1 hec.2 hg ?_
+        intro e' he' hr' hm'
+        by_cases hee : e' = e
+        · exact Or.inl hee
+        · right
+          rcases hall e' ((hmemIff e').mpr ⟨he', hr'⟩) hm' with h | h
+          · exact absurd h hee
+          · rw [← less_eq_before]
+            rcases less_total wf hec.1 he' (fun x => hee x.symm) with h' | h'
+            · exact h'
+            · rw [h] at h'; cases h'
+
+/-- **resolves_unique** — the property relation determines the answer (on any set; well-formedness is
+only needed for existence, `find_spec`). -/
+theorem resolves_unique {confs : List Entry} {name : Bytes} {r1 r2 : Res}
+    (h1 : Resolves confs name r1) (h2 : Resolves confs name r2) : r1 = r2 := by
+  cases h1 with
+  | exact e he hn =>
+    cases h2 with
+    | exact => rfl
+    | invalid hno => exact absurd hn (hno e he)
+    | regex _ _ hno => exact absurd hn (hno e he)
+    | notConfigured hno => exact absurd hn (hno e he)
+  | invalid hno hv =>
+    cases h2 with
+    | exact e he hn => exact absurd hn (hno e he)
+    | invalid => rfl
+    | regex _ _ _ hv' => rw [hv] at hv'; cases hv'
+    | notConfigured _ hv' => rw [hv] at hv'; cases hv'
+  | regex e g hno hv he hr hg hall =>
+    cases h2 with
+    | exact e' he' hn => exact absurd hn (hno e' he')
+    | invalid _ hv' => rw [hv] at hv'; cases hv'
+    | regex e2 g2 _ _ he2 hr2 hg2 hall2 =>
+      have hee : e = e2 := by
+        rcases hall e2 he2 hr2 (by rw [hg2]; simp) with h | h
+        · exact h.symm
+        · rcases hall2 e he hr (by rw [hg]; simp) with h' | h'
+          · exact h'
+          · rw [← less_eq_before] at h h'
+            rw [less_asymm h] at h'; cases h'
+      subst hee
+      rw [hg] at hg2
+      cases hg2
+      rfl
+    | notConfigured _ _ hnone => rw [hnone e he hr] at hg; cases hg
+  | notConfigured hno hv hnone =>
+    cases h2 with
+    | exact e he hn => exact absurd hn (hno e he)
+    | invalid _ hv' => rw [hv] at hv'; cases hv'
+    | regex e g _ _ he hr hg => rw [hnone e he hr] at hg; cases hg
+    | notConfigured => rfl
+
+theorem resolves_perm {confs confs' : List Entry} (hp : confs.Perm confs') {name : Bytes} {r : Res}
+    (h : Resolves confs name r) : Resolves confs' name r := by
+  have hm : ∀ e, e ∈ confs ↔ e ∈ confs' := fun e => hp.mem_iff
+  cases h with
+  | exact e he hn => exact .exact e ((hm e).mp he) hn
+  | invalid hno hv => exact .invalid (fun e he => hno e ((hm e).mpr he)) hv
+  | regex e g hno hv he hr hg hall =>
+    exact .regex e g (fun e he => hno e ((hm e).mpr he)) hv ((hm e).mp he) hr hg
+      (fun e' he' => hall e' ((hm e').mpr he'))
+  | notConfigured hno hv hnone =>
+    exact .notConfigured (fun e he => hno e ((hm e).mpr he)) hv (fun e he => hnone e ((hm e).mpr he))
+
+/-- **find_perm_invariant** — the result does not depend on map iteration order (any permutation of
+the entries) nor on the sort implementation (any two conforming, possibly unstable, sorts). -/
+theorem find_perm_invariant {s1 s2 : List Entry → List Entry} (h1 : IsSort s1) (h2 : IsSort s2)
+    {confs confs' : List Entry} (wf : WF confs) (hp : confs.Perm confs') (name : Bytes) :
+    find s1 confs name = find s2 confs' name := by
+  have wf' : WF confs' := by
+    constructor
+    · exact (hp.map (·.name)).nodup_iff.mp wf.nodup
+    · intro a ha b hb
+      exact wf.oneAll a (hp.mem_iff.mpr ha) b (hp.mem_iff.mpr hb)
+  exact resolves_unique (resolves_perm hp (find_spec h1 wf name)) (find_spec h2 wf' name)
+
+/-! #### the executable spec run by the driver is the property relation -/
+
+theorem find?_name_some {confs : List Entry} (wf : WF confs) {e : Entry} (he : e ∈ confs) :
+    confs.find? (fun x => x.name == e.name) = some e := by
+  cases hf : confs.find? (fun x => x.name == e.name) with
+  | none => exact absurd rfl (find?_name_none hf e he)
+  | some x =>
+    have hx := List.mem_of_find?_eq_some hf
+    have hn : x.name = e.name := by simpa using List.find?_some hf
+    rw [name_inj wf.nodup x hx e he hn]
+
+/-- `spec … = ok` (what the driver evaluates on the implementation's answer) iff `Resolves`. -/
+theorem spec_ok_iff {confs : List Entry} (wf : WF confs) (name : Bytes) (r : Res) :
+    spec confs name r = .ok ↔ Resolves confs name r := by
+  constructor
+  · intro h
+    unfold spec at h
+    split at h
+    · rename_i hany
+      split at h
+      · rename_i hr
+        obtain ⟨e, he, hn⟩ := List.any_eq_true.mp hany
+        have hr : r = .found name none := by simpa using hr
+        rw [hr]
+        exact .exact e he (by simpa using hn)
+      · cases h
+    · rename_i hany
+      have hno : ∀ e ∈ confs, e.name ≠ name := by
+        intro e he hn
+        exact hany (List.any_eq_true.mpr ⟨e, he, by simp [hn]⟩)
+      split at h
+      · rename_i hv
+        split at h
+        · rename_i hr
+          have hr : r = .errInvalid := by simpa using hr
+          rw [hr]
+          exact .invalid hno (by simpa using hv)
+        · cases h
+      · rename_i hv
+        have hv : validName name = true := by simpa using hv
+        split at h
+        · rename_i n g
+          split at h
+          · cases h
+          · rename_i e hf
+            have he := List.mem_of_find?_eq_some hf
+            have hn : e.name = n := by simpa using List.find?_some hf
+            split at h
+            · cases h
+            · rename_i hc
+              split at h
+              · rename_i hall
+                simp only [Bool.not_eq_true', Bool.not_eq_false, Bool.and_eq_true, beq_iff_eq] at hc
+                rw [← hn]
+                refine .regex e g hno hv he hc.1 hc.2 ?_
+                intro e' he' hr' hm'
+                have := List.all_eq_true.mp hall e' he'
+                simp only [hasMatch, hr', Bool.true_and, Bool.or_eq_true, Bool.not_eq_true',
+                  beq_iff_eq] at this
+                rcases this with (h | h) | h
+                · cases hm'' : e'.m with
+                  | none => exact absurd hm'' hm'
+                  | some _ => rw [hm''] at h; cases h
+                · exact Or.inl h
+                · exact Or.inr h
+              · cases h
+        · split at h
+          · cases h
+          · rename_i hany2
+            refine .notConfigured hno hv ?_
+            intro e he hr
+            cases hm : e.m with
+            | none => rfl
+            | some g =>
+              exact absurd (List.any_eq_true.mpr ⟨e, he, by simp [hasMatch, hr, hm]⟩) hany2
+        · cases h
+  · intro h
+    cases h with
+    | exact e he hn =>
+      have : confs.any (fun e => e.name == name) = true := List.any_eq_true.mpr ⟨e, he, by simp [hn]⟩
+      simp [spec, this]
+    | invalid hno hv =>
+      have : confs.any (fun e => e.name == name) = false := by
+        apply Bool.eq_false_iff.mpr
+        intro h
+        obtain ⟨e, he, hn⟩ := List.any_eq_true.mp h
+        exact hno e he (by simpa using hn)
+      simp [spec, this, hv]
+    | regex e g hno hv he hr hg hall =>
+      have : confs.any (fun e => e.name == name) = false := by
+        apply Bool.eq_false_iff.mpr
+        intro h
+        obtain ⟨e, he, hn⟩ := List.any_eq_true.mp h
+        exact hno e he (by simpa using hn)
+      have hall' : confs.all (fun e' => !hasMatch e' || e' == e || before e e') = true := by
+        apply List.all_eq_true.mpr
+        intro e' he'
+        cases hh : hasMatch e' with
+        | false => simp
+        | true =>
+          simp only [hasMatch, Bool.and_eq_true] at hh
+          rcases hall e' he' hh.1 (by intro h0; rw [h0] at hh; simp at hh) with h | h
+          · simp [h]
+          · simp [h]
+      simp [spec, this, hv, find?_name_some wf he, hr, hg, hall']
+    | notConfigured hno hv hnone =>
+      have : confs.any (fun e => e.name == name) = false := by
+        apply Bool.eq_false_iff.mpr
+        intro h
+        obtain ⟨e, he, hn⟩ := List.any_eq_true.mp h
+        exact hno e he (by simpa using hn)
+      have h2 : confs.any hasMatch = false := by
+        apply Bool.eq_false_iff.mpr
+        intro h
+        obtain ⟨e, he, hm⟩ := List.any_eq_true.mp h
+        simp only [hasMatch, Bool.and_eq_true] at hm
+        rw [hnone e he hm.1] at hm
+        simp at hm
+      simp [spec, this, hv, h2]
+
+/-- the driver's verdict on an answer is `ok` exactly for the model's answer -/
+theorem spec_ok_iff_eq_find {sort : List Entry → List Entry} (hsort : IsSort sort) {confs : List Entry}
+    (wf : WF confs) (name : Bytes) (r : Res) : spec confs name r = .ok ↔ r = find sort confs name := by
+  rw [spec_ok_iff wf]
+  constructor
+  · intro h; exact resolves_unique h (find_spec hsort wf name)
+  · intro h; rw [h]; exact find_spec hsort wf name
+
+/-! #### `Conf.Validate` establishes the hypotheses -/
+
+def entriesOf (names : List VName) (ms : Bytes → Option (List Bytes)) : List Entry :=
+  names.map fun v => ⟨v.name, isRegexName v.name, ms v.name⟩
+
+/-- an accepted key set (distinct keys, as in a map) gives a well-formed configuration set -/
+theorem validate_ok_wf {names : List VName} {fl : List Bool} (ms : Bytes → Option (List Bytes))
+    (hd : (names.map (·.name)).Nodup) (hok : validateNames names = .ok fl) :
+    WF (entriesOf names ms) ∧ fl = (entriesOf names ms).map (·.regex) := by
+  unfold validateNames at hok
+  split at hok
+  · cases hok
+  · rename_i hal
+    split at hok
+    · rename_i e he
+      -- an error value is never `.ok`
+      exfalso
+      obtain ⟨v, _, hv⟩ := List.exists_of_findSome?_eq_some he
+      subst hok
+      unfold nameErr at hv
+      repeat' split at hv
+      all_goals cases hv
+    · cases hok
+      refine ⟨⟨?_, ?_⟩, ?_⟩
+      · simpa [entriesOf, List.map_map, Function.comp_def] using hd
+      · intro a ha b hb hA hB
+        simp only [entriesOf, List.mem_map] at ha hb
+        obtain ⟨va, hva, rfl⟩ := ha
+        obtain ⟨vb, hvb, rfl⟩ := hb
+        simp only at hA hB
+        by_cases hab : va.name = vb.name
+        · rw [map_nodup_inj VName.name hd va hva vb hvb hab]
+        · -- two different alias names ⇒ the alias filter has length ≥ 2
+          exfalso
+          apply hal
+          have hA' : isAlias va.name = true := by
+            simp only [isAllName, Bool.or_eq_true] at hA; simp only [isAlias, Bool.or_eq_true]; exact Or.inl hA
+          have hB' : isAlias vb.name = true := by
+            simp only [isAllName, Bool.or_eq_true] at hB; simp only [isAlias, Bool.or_eq_true]; exact Or.inl hB
+          have ha' : va ∈ names.filter (fun v => isAlias v.name) := List.mem_filter.mpr ⟨hva, hA'⟩
+          have hb' : vb ∈ names.filter (fun v => isAlias v.name) := List.mem_filter.mpr ⟨hvb, hB'⟩
+          generalize names.filter (fun v => isAlias v.name) = l at ha' hb'
+          match l, ha', hb' with
+          | [], ha', _ => cases ha'
+          | [x], ha', hb' =>
+            have h1 : va = x := by simpa using ha'
+            have h2 : vb = x := by simpa using hb'
+            exact absurd (by rw [h1, h2]) hab
+          | _ :: _ :: _, _, _ => simp
+      · simp [entriesOf, List.map_map, Function.comp_def]
+
+/-! #### non-vacuity / sanity examples -/
+
+private def eCam : Entry := ⟨asc ['~', '^', 'c', 'a', 'm'], true, some [asc ['c', 'a', 'm']]⟩
+private def eAll : Entry := ⟨nAllOthers, true, some [asc ['c', 'a', 'm', '1']]⟩
+private def eStatic : Entry := ⟨asc ['c', 'a', 'm', '1'], false, none⟩
+
+example : find isort [eAll, eCam] (asc ['c', 'a', 'm', '1']) = .found eCam.name eCam.m := by decide
+example : find isort [eCam, eAll] (asc ['c', 'a', 'm', '1']) = .found eCam.name eCam.m := by decide
+example : find isort [eAll, eStatic, eCam] (asc ['c', 'a', 'm', '1']) = .found eStatic.name none := by decide
+example : find isort [eAll, eCam] (asc ['/', 'x']) = .errInvalid := by decide
+example : find isort [⟨eCam.name, true, none⟩] (asc ['x']) = .errNotConfigured := by decide
+example : validName (asc ['a', '/', '.', '.', '/', 'b']) = false := by decide
+example : validName (asc ['a', '/', '.', '.', '.', '/', 'b']) = true := by decide
+example : WF [eAll, eStatic, eCam] := by
+  constructor
+  · decide
+  · intro a ha b hb hA hB
+    simp only [List.mem_cons, List.not_mem_nil, or_false] at ha hb
+    rcases ha with rfl | rfl | rfl <;> rcases hb with rfl | rfl | rfl <;> first | rfl | (revert hA hB; decide)
+example : validateNames [⟨nAll, true⟩, ⟨nTildeAll, true⟩] = .errAlias := by decide
+example : validateNames [⟨nAll, true⟩, ⟨asc ['c'], true⟩] = .ok [true, false] := by decide
+
 end MtxVerif.C14
